@@ -58,6 +58,82 @@ PREFIX = {
 }
 
 
+# The Base58Check kinds of the Tezos base58 module (src/lib_crypto/base58.ml `Prefix`, plus the prefixes registered by the
+# protocol: contract_hash, tx_rollup / smart_rollup prefixes, script_expr, nonce_hash, blinded pkh, block_payload_hash),
+# written down independently of pytezos:  (documented string prefix, documented string length, binary prefix, payload
+# bytes, what).  Octez documents each as e.g. `ed25519_public_key_hash = "\006\161\159" (* tz1(36) *)`.
+# selftest() proves every row self-consistent: the two numeric extremes of the row's interval both have the documented
+# prefix and length, which (base58 of a fixed-width number being monotone) settles every payload and checksum.
+KINDS = [
+    ('B', 51, bytes([1, 52]), 32, 'block_hash'),
+    ('o', 51, bytes([5, 116]), 32, 'operation_hash'),
+    ('Lo', 52, bytes([133, 233]), 32, 'operation_list_hash'),
+    ('LLo', 53, bytes([29, 159, 109]), 32, 'operation_list_list_hash'),
+    ('P', 51, bytes([2, 170]), 32, 'protocol_hash'),
+    ('Co', 52, bytes([79, 199]), 32, 'context_hash'),
+    ('tz1', 36, bytes([6, 161, 159]), 20, 'ed25519_public_key_hash'),
+    ('tz2', 36, bytes([6, 161, 161]), 20, 'secp256k1_public_key_hash'),
+    ('tz3', 36, bytes([6, 161, 164]), 20, 'p256_public_key_hash'),
+    ('tz4', 36, bytes([6, 161, 166]), 20, 'bls12_381_public_key_hash'),
+    ('KT1', 36, bytes([2, 90, 121]), 20, 'contract_hash'),
+    ('txr1', 37, bytes([1, 128, 120, 31]), 20, 'tx_rollup address'),
+    ('sr1', 36, bytes([6, 124, 117]), 20, 'smart_rollup_address'),
+    ('src1', 54, bytes([17, 165, 134, 138]), 32, 'smart_rollup_commitment_hash'),
+    ('srs1', 54, bytes([17, 165, 235, 240]), 32, 'smart_rollup_state_hash'),
+    ('srib1', 55, bytes([3, 255, 138, 145, 110]), 32, 'smart_rollup_inbox_hash'),
+    ('srib2', 55, bytes([3, 255, 138, 145, 140]), 32, 'smart_rollup_merkelized_payload_hashes_hash'),
+    ('id', 30, bytes([153, 103]), 16, 'cryptobox_public_key_hash'),
+    ('expr', 54, bytes([13, 44, 64, 27]), 32, 'script_expr_hash'),
+    ('edsk', 54, bytes([13, 15, 58, 7]), 32, 'ed25519_seed'),
+    ('edpk', 54, bytes([13, 15, 37, 217]), 32, 'ed25519_public_key'),
+    ('spsk', 54, bytes([17, 162, 224, 201]), 32, 'secp256k1_secret_key'),
+    ('p2sk', 54, bytes([16, 81, 238, 189]), 32, 'p256_secret_key'),
+    ('edesk', 88, bytes([7, 90, 60, 179, 41]), 56, 'ed25519_encrypted_seed'),
+    ('spesk', 88, bytes([9, 237, 241, 174, 150]), 56, 'secp256k1_encrypted_secret_key'),
+    ('p2esk', 88, bytes([9, 48, 57, 115, 171]), 56, 'p256_encrypted_secret_key'),
+    ('sppk', 55, bytes([3, 254, 226, 86]), 33, 'secp256k1_public_key'),
+    ('p2pk', 55, bytes([3, 178, 139, 127]), 33, 'p256_public_key'),
+    ('SSp', 53, bytes([38, 248, 136]), 32, 'secp256k1_scalar'),      # a scalar is 32 bytes: SSp(53)
+    ('GSp', 54, bytes([5, 92, 0]), 33, 'secp256k1_element'),         # a compressed point is 33 bytes: GSp(54)
+    ('edsk', 98, bytes([43, 246, 78, 7]), 64, 'ed25519_secret_key'),
+    ('edsig', 99, bytes([9, 245, 205, 134, 18]), 64, 'ed25519_signature'),
+    ('spsig1', 99, bytes([13, 115, 101, 19, 63]), 64, 'secp256k1_signature'),
+    ('p2sig', 98, bytes([54, 240, 44, 52]), 64, 'p256_signature'),
+    ('sig', 96, bytes([4, 130, 43]), 64, 'generic_signature'),
+    ('Net', 15, bytes([87, 82, 0]), 4, 'chain_id'),
+    ('nce', 53, bytes([69, 220, 169]), 32, 'nonce_hash'),
+    ('btz1', 37, bytes([1, 2, 49, 223]), 20, 'blinded_public_key_hash'),
+    ('vh', 52, bytes([1, 106, 242]), 32, 'block_payload_hash'),
+    ('BLsig', 142, bytes([40, 171, 64, 207]), 96, 'bls12_381_signature'),
+    ('BLpk', 76, bytes([6, 149, 135, 204]), 48, 'bls12_381_public_key'),
+    ('BLsk', 54, bytes([3, 150, 192, 40]), 32, 'bls12_381_secret_key'),
+    ('BLesk', 88, bytes([2, 5, 30, 53, 25]), 56, 'bls12_381_encrypted_secret_key'),
+]
+
+
+def extremes(bin_prefix: bytes, n: int):
+    """base58 strings of the smallest and the largest number of the interval bin_prefix || payload(n) || checksum(4)."""
+    return b58encode(bin_prefix + b'\0' * (n + 4)), b58encode(bin_prefix + b'\xff' * (n + 4))
+
+
+def common_prefix(a: str, b: str) -> str:
+    i = 0
+    while i < min(len(a), len(b)) and a[i] == b[i]:
+        i += 1
+    return a[:i]
+
+
+def decode_any(s: str):
+    """Independent typed decoder: base58 + double SHA-256 + lookup by BINARY prefix and payload length.
+    Returns (row of KINDS, payload); raises ValueError with a reason otherwise."""
+    raw = b58check_decode(s)
+    hits = [k for k in KINDS if raw[:len(k[2])] == k[2] and len(raw) == len(k[2]) + k[3]]
+    if not hits:
+        raise ValueError('no kind with this binary prefix and payload length')
+    assert len(hits) == 1, hits
+    return hits[0], raw[len(hits[0][2]):]
+
+
 def enc(kind: str, payload: bytes) -> str:
     return b58check_encode(PREFIX[kind], payload)
 
@@ -87,4 +163,36 @@ def selftest() -> int:
             s = enc(k, fill * ln)
             assert s.startswith(want), (k, s)
             n += 1
+    # KINDS: 43 rows, self-consistent (boundary argument), unambiguous, and containing PREFIX
+    assert len(KINDS) == 43
+    for sp, sl, bp, pl, what in KINDS:
+        assert bp[0] != 0
+        lo, hi = extremes(bp, pl)
+        assert len(lo) == sl and len(hi) == sl and lo.startswith(sp) and hi.startswith(sp), (sp, lo, hi)
+        n += 2
+    for a in KINDS:
+        for b in KINDS:
+            if a is not b and len(a[2]) + a[3] == len(b[2]) + b[3]:
+                assert not a[2].startswith(b[2]), (a, b)
+    for k, p in PREFIX.items():
+        assert any(p == row[2] for row in KINDS), k
+    # every literal of tests/unit_tests/test_crypto/test_encoding.py::test_b58_decode_encode decodes to the kind it names
+    import ast
+    import os
+    path = os.path.join(os.environ.get('VERIF_REPO', '/repo'), 'tests/unit_tests/test_crypto/test_encoding.py')
+    tree = ast.parse(open(path).read())
+    lits = []
+    for fn in ast.walk(tree):
+        if isinstance(fn, ast.FunctionDef) and fn.name == 'test_b58_decode_encode':
+            for t in ast.walk(fn.decorator_list[0]):
+                if isinstance(t, ast.Tuple) and len(t.elts) == 2 and all(isinstance(e, ast.Constant) and isinstance(e.value, str) for e in t.elts):
+                    lits.append((t.elts[0].value, t.elts[1].value))
+    assert len(lits) >= 25, len(lits)
+    for s, want in lits:
+        if s in ('base58', 'prefix'):
+            continue
+        row, payload = decode_any(s)
+        assert row[0].startswith(want) and len(s) == row[1] and len(payload) == row[3], (s, row)
+        assert b58check_encode(row[2], payload) == s
+        n += 1
     return n
